@@ -995,6 +995,9 @@ class FormulaManager(object):
 
     def BVRepeat(self, formula: FNode, count: int=1) -> FNode:
         """Returns the concatenation of count copies of formula."""
+        if count < 1:
+            raise PysmtValueError("BVRepeat expects a count of at least one, "
+                                  "got %s" % str(count))
         res = formula
         for _ in range(count-1):
             res = self.BVConcat(res, formula)
